@@ -499,7 +499,12 @@ def clause_verify(R, rule):
         s1s = [s for s in sums if s[0] and all(l.startswith("s1") for l in s[0])]
         s2s = [s for s in sums if s[0] and all(l.startswith("s2") for l in s[0])]
         half = (Q // 2) ** 2
-        R.check(len(sums) == 2 and len(s1s) == 1 and len(s2s) == 1 and s1s[0][1] in ((NN, NN), None) and s2s[0][1] in ((NN, NN), None) and s1s[0][2][0] >= 0 and s1s[0][2][1] <= half and s2s[0][2][0] >= 0,
+        two = (len(sums) == 2 and len(s1s) == 1 and len(s2s) == 1 and s1s[0][1] in ((NN, NN), None) and s2s[0][1] in ((NN, NN), None) and s1s[0][2][0] >= 0 and s1s[0][2][1] <= half and s2s[0][2][0] >= 0)
+        # or one sum over the 2n squares of both vectors (`s1.iter().chain(s2.iter())`): every coefficient of both must be a term
+        need = {f"s1[{i}]" for i in range(NN)} | {f"s2[{i}]" for i in range(NN)}
+        one = (len(sums) == 1 and sums[0][0] and need <= set(sums[0][0]) and all(l.startswith(("s1", "s2")) for l in sums[0][0])
+               and sums[0][1] in ((2 * NN, 2 * NN), None) and sums[0][2][0] >= 0)
+        R.check(two or one,
                 rule, site + " norm", f"the norm is the sum over all coefficients of (centred s1)^2 (each <= {half}) plus the sum over all coefficients of s2^2",
                 f"sums seen: {sums}", key=f"verify|{N}|norm")
         h2p = [c for c in calls if c[0] == "hash_to_point"]
